@@ -145,6 +145,20 @@ def judge_circuit(case, ctx, prefix):
             lst = list(comps); lst[j] = circdesc.lib_component(clone)
             must_raise(ctx, prefix, 'duplicate-id/circuit', f'a circuit with id {clone["id"]!r} at positions {i} and {j}', Circuit, lst)
             ctx.evaluated(repr(('dup-circ', i, j, n)), True)
+    # a component of an unknown type (a typo in a hand-made Component) at every position: rejected when the circuit is built, or at
+    # the latest by every analysis - never analysed as if the component were not there
+    from CircuitCalculator.Circuit.components import Component
+    from CircuitCalculator.Circuit import solution as S
+    for pos in range(n + 1):
+        for bad_type in ('resistorr', 'Resistor', ''):
+            lst = list(comps)
+            lst.insert(pos, Component(type=bad_type, id='X#1', nodes=(nodes[0], nodes[-1]), value={'R': 5.0}))
+
+            def build_and_analyse(lst=lst):
+                c = Circuit(lst)
+                return S.DCSolution(c), S.ComplexSolution(circuit=c, w=10.0), S.TimeDomainSolution(c, 30.0)
+            must_raise(ctx, prefix, 'unknown-type/component', f'a circuit with a component of unknown type {bad_type!r} at position {pos}', build_and_analyse)
+            ctx.evaluated(repr(('unknown-type-component', pos, n, bad_type)), True)
     ctx.sample({'circuit_fault_base': cd})
 
 
@@ -183,17 +197,29 @@ def judge_lookup(case, ctx, prefix):
         must_raise(ctx, prefix, 'unknown-waveform/lookup', f'periodic_function({nm!r})', periodic_function, nm)
         ctx.evaluated(repr(('wave', nm)), True)
         if isinstance(nm, str):
-            c = ccp.periodic_voltage_source(id='V', nodes=('a', '0'), wavetype=nm, V=1.0, w=10.0)
-            circ = Circuit([c, ccp.resistor('R', ('a', '0'), 5.0)])
+            # the description may be rejected when the source is constructed (what the statement asks for); a tree that constructs it
+            # must at least refuse EVERY analysis of it - including the transient one, which has no use for the waveform itself
             from CircuitCalculator.Circuit import solution as S
-            for wq in (10.0, 25.0, 7.0, 0.0):           # at a harmonic, between harmonics, at DC
-                must_raise(ctx, prefix, 'unknown-waveform/analysis', f'transform_circuit at w={wq} with a periodic source of unknown wave type {nm!r}', transform_circuit, circ, wq)
-                must_raise(ctx, prefix, 'unknown-waveform/analysis', f'ComplexSolution at w={wq} with a periodic source of unknown wave type {nm!r}', S.ComplexSolution, circuit=circ, w=wq)
-            must_raise(ctx, prefix, 'unknown-waveform/analysis', f'TimeDomainSolution with a periodic source of unknown wave type {nm!r}', S.TimeDomainSolution, circ, 35.0)
-            ci = ccp.periodic_current_source(id='I', nodes=('a', '0'), wavetype=nm, I=1.0, w=10.0, phi=0.0)
-            circ_i = Circuit([ci, ccp.resistor('R', ('a', '0'), 5.0)])
-            for wq in (10.0, 25.0):
-                must_raise(ctx, prefix, 'unknown-waveform/analysis', f'transform_circuit at w={wq} with a periodic current source of unknown wave type {nm!r}', transform_circuit, circ_i, wq)
+            c = call(ccp.periodic_voltage_source, id='V', nodes=('a', '0'), wavetype=nm, V=1.0, w=10.0)
+            ctx.count('faults_injected'); ctx.count('faults_unknown-waveform')
+            if raised(c):
+                ctx.count('unknown_waveform_rejected_at_construction')
+            else:
+                circ = Circuit([c, ccp.resistor('R', ('a', 'b'), 5.0), ccp.capacitor('C', ('b', '0'), 1e-3), ccp.ground(nodes=('0',))])
+                for wq in (10.0, 25.0, 7.0, 0.0):           # at a harmonic, between harmonics, at DC
+                    must_raise(ctx, prefix, 'unknown-waveform/analysis', f'transform_circuit at w={wq} with a periodic source of unknown wave type {nm!r}', transform_circuit, circ, wq)
+                    must_raise(ctx, prefix, 'unknown-waveform/analysis', f'ComplexSolution at w={wq} with a periodic source of unknown wave type {nm!r}', S.ComplexSolution, circuit=circ, w=wq)
+                must_raise(ctx, prefix, 'unknown-waveform/analysis', f'TimeDomainSolution with a periodic source of unknown wave type {nm!r}', S.TimeDomainSolution, circ, 35.0)
+                tt = np.linspace(0, 1e-2, 21)
+                must_raise(ctx, prefix, 'unknown-waveform/analysis/transient', f'TransientSolution with a periodic source of unknown wave type {nm!r}', S.TransientSolution, circuit=circ, tin=tt, input={'V': lambda t: np.ones_like(t)})
+            ci = call(ccp.periodic_current_source, id='I', nodes=('a', '0'), wavetype=nm, I=1.0, w=10.0, phi=0.0)
+            ctx.count('faults_injected'); ctx.count('faults_unknown-waveform')
+            if raised(ci):
+                ctx.count('unknown_waveform_rejected_at_construction')
+            else:
+                circ_i = Circuit([ci, ccp.resistor('R', ('a', '0'), 5.0)])
+                for wq in (10.0, 25.0):
+                    must_raise(ctx, prefix, 'unknown-waveform/analysis', f'transform_circuit at w={wq} with a periodic current source of unknown wave type {nm!r}', transform_circuit, circ_i, wq)
 
     class Alien:
         period, amplitude, phase, offset = 1.0, 1.0, 0.0, 0.0
@@ -345,6 +371,13 @@ def judge_schematic(case, ctx, prefix):
             d = copy.deepcopy(base); del d['elements'][pos][field]
             must_raise(ctx, prefix, f'missing-field/schematic/{field}', f'element {pos} without {field!r}', create_schematic, d)
         ctx.evaluated(repr(('schem', pos)), True)
+    # the same with a NAMED ground symbol (an unnamed component must be rejected because its name is missing, not because its empty
+    # identifier happens to collide with another empty one)
+    base_g = copy.deepcopy(base); base_g['elements'][-1]['name'] = 'gnd'
+    must_accept(ctx, prefix, 'schematic', 'a valid declarative schematic with a named ground', create_schematic, copy.deepcopy(base_g))
+    for pos in range(3):
+        d = copy.deepcopy(base_g); del d['elements'][pos]['name']
+        must_raise(ctx, prefix, 'missing-field/schematic/name', f'element {pos} without a name (named ground)', create_schematic, d)
     for pos in (1, 2):
         d = copy.deepcopy(base); d['elements'][pos]['R'] = -5.0
         must_raise(ctx, prefix, 'negative-value/schematic/R', f'element {pos} with negative R', create_schematic, d)
